@@ -109,6 +109,9 @@ func apiEvent(i int, o hop) *aucoalesce.Event {
 		e.Type = auparse.AUDIT_CRED_DISP
 		e.Session = sesString(o.S)
 		e.Process.PID = opPidString(o)
+		if i%2 == 1 {
+			e.Result = "fail" // a failed credential disposal still ends the session
+		}
 	case "ev":
 		e.Type = evTypes[o.T]
 		e.Session = sesString(o.S)
